@@ -337,7 +337,15 @@ fn render_stmt(s: &Json, ind: usize) -> String {
                     j += 1;
                 } else {
                     let kw = if j == 0 { "if" } else { " else if" };
-                    let _ = write!(out, "{kw} {} {}", sub(&ks[j]), block(&ks[j + 1], ind));
+                    // `if q { }` would be read as the struct literal `q { }`: parenthesise a bare
+                    // identifier (also at the end of an unparenthesised condition) before an empty block
+                    let empty = arr(&arr(&ks[j + 1])[2]).is_empty();
+                    let cond = if empty && st(&arr(&ks[j])[0]) != "lit" {
+                        format!("({})", render_expr(&ks[j]))
+                    } else {
+                        sub(&ks[j])
+                    };
+                    let _ = write!(out, "{kw} {cond} {}", block(&ks[j + 1], ind));
                     j += 2;
                 }
             }
